@@ -432,18 +432,22 @@ class FieldStorage:
         if has_read > max_read:
             raise BodySizeError('Max in-memory read limit exceed')
         src.seek(start)
-        headers_raw = src.read(sz).decode()
-        for header_raw in headers_raw.splitlines():
-            header = self.parse_header(header_raw)
-            self.headers[header.name] = header
-            if header.name == 'Content-Disposition':
-                self.name = header.options['name']
-                self.filename = header.options.get('filename')
-            elif header.name == 'Content-Type':
-                self.ctype = header.value
+        try:
+            headers_raw = src.read(sz).decode()
+            for header_raw in headers_raw.splitlines():
+                header = self.parse_header(header_raw)
+                self.headers[header.name] = header
+                if header.name == 'Content-Disposition':
+                    self.name = header.options['name']
+                    self.filename = header.options.get('filename')
+                elif header.name == 'Content-Type':
+                    self.ctype = header.value
+        except (ValueError, KeyError, StopIteration) as exc:
+            # undecodable bytes, no colon, empty header value, no `name` option
+            raise MalformedHeadersError(f'Malformed headers of a multipart/formdata field: {exc!r}')
 
         if self.name is None:
-            raise BodyParsingError(f'Noname field found while parsing multipart/formdata body: {header_raw}')
+            raise BodyParsingError('Noname field found while parsing multipart/formdata body')
 
         if self.filename is not None:
             self.file = BytesIOProxy(src, *data_section)
@@ -455,7 +459,10 @@ class FieldStorage:
                 if has_read > max_read:
                     raise BodySizeError('Max in-memory read limit exceed')
                 src.seek(start)
-                self.value = src.read(sz).decode()
+                try:
+                    self.value = src.read(sz).decode()
+                except ValueError as exc:
+                    raise BodyParsingError(f'Undecodable value of a multipart/formdata field: {exc!r}')
             else:
                 self.value = ''
         return has_read
